@@ -13,11 +13,12 @@
  *   <status>[:v,v...][/hex/hex...]@<len>,<pos>,<taglen>,<remaining hex>
  * ("-" = empty byte string).  When the tag lies beyond the offset (the caller moved below an
  * active tag with set_position - outside the API contract) every op except t, tc, sp is
- * answered with SKIP instead of being executed.
+ * answered with SKIP instead of being executed.  A case is given 3 seconds (alarm).
  */
 #include "ares_private.h"
 #include "drv_common.h"
 #include "dsa_reg.h"
+#include <unistd.h>
 
 static void put_hex(const unsigned char *p, size_t n)
 {
@@ -54,6 +55,9 @@ static void run_buf(long k, char *ops)
   ares_buf_t    *buf   = ares_buf_create();
   unsigned char *cdata = NULL; /* the bytes a const buffer points to: live until replaced */
   char          *save  = NULL, *op;
+  /* a library loop that no longer terminates must not stall the whole check: SIGALRM ends the
+   * process, the runner records the case as a crash and resumes with the next one */
+  alarm(3);
   printf("%ld R", k);
   for (op = strtok_r(ops, ";", &save); op; op = strtok_r(NULL, ";", &save)) {
     int           fail = 0;
@@ -279,6 +283,7 @@ static void run_buf(long k, char *ops)
   printf("\n");
   ares_buf_destroy(buf);
   free(cdata);
+  alarm(0);
 }
 
 DSA_REGISTER("buf", run_buf)
